@@ -34,6 +34,7 @@ type scanModel struct {
 	dataName string
 	runs     int
 	memo     map[string]*stepResult
+	memoLA   map[string][]*stepResult
 	problems []string
 }
 
@@ -50,9 +51,13 @@ type stepResult struct {
 	Next   *implState
 	Detail string
 	Code   string
-	// LA is set when Kind == "lookahead": the result depends on the byte that follows.
-	LA            map[int]*stepResult
-	LastByteCrash string
+	ErrPos string
+	Where  string // function in which a crash was raised
+	// Consumed is the number of input bytes consumed by this transition (1 normally; 0 when the scanner
+	// steps back to re-read the byte; more when it skips look-ahead bytes).
+	Consumed int
+	// LA holds the look-ahead bytes this result depends on (offset relative to the fed byte, >= 1).
+	LA map[int]int
 }
 
 func newPEConfig(c *load.Ctx) *pe.Config {
@@ -209,34 +214,42 @@ func (m *scanModel) Initial() *implState {
 }
 
 type microResult struct {
-	kind   string // event | cut | end | reject | crash | undecided
-	ev     spec.Ev
-	state  pe.Value
-	detail string
-	code   string
-	la     int // value of the look-ahead byte this result depends on (-1: none)
+	kind     string // event | cut | end | reject | crash | undecided
+	ev       spec.Ev
+	state    pe.Value
+	detail   string
+	code     string
+	where    string      // function in which a crash was raised
+	errPos   string      // position carried by a rejecting DocumentError, relative to the consumed byte
+	la       map[int]int // look-ahead bytes consulted: offset (>=1) -> value
+	consumed int         // how far the index moved (cut / event results)
 }
 
 const (
-	modeByte     = iota // a byte at the current index, more input follows
-	modeLastByte        // a byte at the current index which is the last byte of the input
-	modeDrain           // no byte may be read: deliver queued events only
-	modeEOF             // end of input
+	modeByte  = iota // bytes at the current index are available; stop at the second read by Next itself
+	modeDrain        // no byte may be read by Next itself: deliver queued events only
+	modeEOF          // end of input
 )
 
-// micro runs Next() once in the given mode. It returns one result, or several when the behaviour
-// depends on the byte after the current one (look-ahead), each labelled with that byte.
-func (m *scanModel) micro(st pe.Value, mode int, first int, lastConsumed string) []microResult {
+const laWindow = 6 // bytes assumed available after the current one in modeByte (look-ahead window)
+
+// micro runs Next() once. known gives the bytes at the current index and after it (-1 = not fixed:
+// a look-ahead read of such a byte forks over all 256 values). remaining is the number of bytes left
+// in the input (modeByte: >= 1).
+func (m *scanModel) micro(st pe.Value, mode int, known []int, remaining int, lastConsumed string) []microResult {
 	m.runs++
 	finals := []pe.Value{}
-	var laName string
+	var idx0 *pe.Sym
+	var dataName string
+	atName := func(off int64) string {
+		return dataName + "[" + pe.Show(&pe.Sym{Expr: idx0.Expr, Off: idx0.Off + off}) + "]"
+	}
 	outs := pe.ExploreFn(m.cfg, func(in *pe.Interp) pe.Value {
 		root := pe.Clone(st).(*pe.Ptr)
 		finals = append(finals, root)
 		sv := root.Obj.Val.(*pe.StructV)
 		stT := sv.T.Underlying().(*types.Struct)
 		var idx *pe.Sym
-		var dataName string
 		for i := 0; i < stT.NumFields(); i++ {
 			switch stT.Field(i).Name() {
 			case "index":
@@ -250,31 +263,30 @@ func (m *scanModel) micro(st pe.Value, mode int, first int, lastConsumed string)
 		if idx == nil || dataName == "" {
 			in.Undecided("scanner fields index/data are not symbolic as expected")
 		}
-		var remaining int64
-		switch mode {
-		case modeByte, modeDrain:
-			remaining = 2
-		case modeLastByte:
-			remaining = 1
+		idx0 = idx
+		rem := int64(remaining)
+		if mode == modeEOF {
+			rem = 0
 		}
 		for i := 0; i < stT.NumFields(); i++ {
 			if stT.Field(i).Name() == "dataSize" {
-				sv.F[i] = &pe.Sym{Expr: idx.Expr, Off: idx.Off + remaining, T: stT.Field(i).Type()}
-				in.SetSymLen(dataName, &pe.Sym{Expr: idx.Expr, Off: idx.Off + remaining, T: stT.Field(i).Type()})
+				sv.F[i] = &pe.Sym{Expr: idx.Expr, Off: idx.Off + rem, T: stT.Field(i).Type()}
+				in.SetSymLen(dataName, &pe.Sym{Expr: idx.Expr, Off: idx.Off + rem, T: stT.Field(i).Type()})
 			}
 		}
-		at := func(off int64) string {
-			return dataName + "[" + pe.Show(&pe.Sym{Expr: idx.Expr, Off: idx.Off + off}) + "]"
+		for k, b := range known {
+			if b >= 0 {
+				in.SetSymMem(atName(int64(k)), int64(b))
+			}
 		}
+		in.CutPrefix, in.CutDepth = dataName+"[", 1
 		switch mode {
 		case modeByte:
-			in.SetSymMem(at(0), int64(first))
-			in.CutAddr, in.CutDepth = at(1), 1
-			laName = at(1)
-		case modeLastByte:
-			in.SetSymMem(at(0), int64(first))
+			in.CutAfter = 1
 		case modeDrain:
-			in.CutAddr, in.CutDepth = at(0), 1
+			in.CutAfter = 0
+		case modeEOF:
+			in.CutAfter = 0
 		}
 		ret := in.Call(m.next, []pe.Value{root})
 		tp, ok := ret.(*pe.Tuple)
@@ -287,13 +299,19 @@ func (m *scanModel) micro(st pe.Value, mode int, first int, lastConsumed string)
 		e := in.Call(m.lexEnd, []pe.Value{tp.E[0]})
 		return &pe.Tuple{E: []pe.Value{t, b, e, tp.E[1]}}
 	})
+	laOff := map[string]int{}
+	if idx0 != nil {
+		for k := -4; k <= laWindow+2; k++ {
+			laOff[atName(int64(k))] = k
+		}
+	}
 	var results []microResult
 	for k, o := range outs {
-		la := -1
+		la := map[int]int{}
 		foreign := ""
 		for _, ch := range o.Choices {
-			if laName != "" && ch.Name == laName {
-				la = ch.Val
+			if off, ok := laOff[ch.Name]; ok {
+				la[off] = ch.Val
 			} else {
 				foreign = ch.Name
 			}
@@ -307,7 +325,7 @@ func (m *scanModel) micro(st pe.Value, mode int, first int, lastConsumed string)
 					break
 				}
 			}
-			return []microResult{{kind: "undecided", la: -1, detail: "behaviour depends on atom " + foreign + " outside the abstract state: " + strings.Join(vs, " ")}}
+			return []microResult{{kind: "undecided", detail: "behaviour depends on atom " + foreign + " outside the abstract state: " + strings.Join(vs, " ")}}
 		}
 		var final pe.Value
 		if k < len(finals) {
@@ -315,12 +333,32 @@ func (m *scanModel) micro(st pe.Value, mode int, first int, lastConsumed string)
 		}
 		mr := m.classify(o, final, lastConsumed)
 		mr.la = la
+		if final != nil && idx0 != nil && (mr.kind == "cut" || mr.kind == "event" || mr.kind == "end") {
+			if cur := m.indexOf(final); cur != nil && cur.Expr == idx0.Expr {
+				mr.consumed = int(cur.Off - idx0.Off)
+			} else {
+				mr = microResult{kind: "undecided", detail: "scanner index is no longer a known offset from its previous value"}
+			}
+		}
 		results = append(results, mr)
 	}
 	if len(results) == 0 {
-		return []microResult{{kind: "undecided", la: -1, detail: "no outcome"}}
+		return []microResult{{kind: "undecided", detail: "no outcome"}}
 	}
 	return results
+}
+
+func (m *scanModel) indexOf(st pe.Value) *pe.Sym {
+	root := st.(*pe.Ptr)
+	sv := root.Obj.Val.(*pe.StructV)
+	stT := sv.T.Underlying().(*types.Struct)
+	for i := 0; i < stT.NumFields(); i++ {
+		if stT.Field(i).Name() == "index" {
+			s, _ := sv.F[i].(*pe.Sym)
+			return s
+		}
+	}
+	return nil
 }
 
 func (m *scanModel) classify(o *pe.Outcome, final pe.Value, lastConsumed string) microResult {
@@ -332,9 +370,9 @@ func (m *scanModel) classify(o *pe.Outcome, final pe.Value, lastConsumed string)
 	case o.Panicked:
 		code, ok := m.docErrCode(o.PanicVal)
 		if ok {
-			return microResult{kind: "reject", code: code, detail: "panic " + code}
+			return microResult{kind: "reject", code: code, detail: "panic " + code, errPos: m.docErrPos(o.PanicVal, lastConsumed)}
 		}
-		return microResult{kind: "crash", detail: "panic " + pe.Show(o.PanicVal)}
+		return microResult{kind: "crash", detail: "panic " + pe.Show(o.PanicVal) + " in " + o.PanicIn, where: o.PanicIn}
 	}
 	tp := o.Ret.(*pe.Tuple)
 	if m.retErr {
@@ -344,7 +382,7 @@ func (m *scanModel) classify(o *pe.Outcome, final pe.Value, lastConsumed string)
 			}
 			code, ok := m.docErrCode(tp.E[3])
 			if ok {
-				return microResult{kind: "reject", code: code, detail: "error " + code}
+				return microResult{kind: "reject", code: code, detail: "error " + code, errPos: m.docErrPos(tp.E[3], lastConsumed)}
 			}
 			return microResult{kind: "crash", detail: "unstructured error " + pe.Show(tp.E[3])}
 		}
@@ -418,48 +456,95 @@ func (m *scanModel) docErrCode(v pe.Value) (string, bool) {
 	return "E?", true
 }
 
-// Feed feeds one byte (0..255) or end of input (-2) to a state and drains the queued events.
-func (m *scanModel) Feed(st *implState, input int) *stepResult {
-	mk := fmt.Sprintf("%s\x00%d", st.key, input)
-	if r, ok := m.memo[mk]; ok {
-		return r
+// docErrPos renders the index carried by a DocumentError ("unset" when SetIndex was not called).
+func (m *scanModel) docErrPos(v pe.Value, lastConsumed string) string {
+	if i, ok := v.(*pe.Iface); ok {
+		v = i.V
 	}
-	r := m.feed(st, input)
-	m.memo[mk] = r
-	return r
-}
-
-func (m *scanModel) feed(st *implState, input int) *stepResult {
-	if input >= 0 {
-		mrs := m.micro(st.root, modeByte, input, "i")
-		if len(mrs) == 1 {
-			return m.finishByte(mrs[0])
-		}
-		// the behaviour depends on the following byte (look-ahead)
-		res := &stepResult{Kind: "lookahead"}
-		byLA := map[int]*stepResult{}
-		sig := map[string]bool{}
-		for _, mr := range mrs {
-			r := m.finishByte(mr)
-			byLA[mr.la] = r
-			sig[r.signature()] = true
-		}
-		if len(byLA) != 256 {
-			return &stepResult{Kind: "undecided", Detail: fmt.Sprintf("look-ahead fork covers %d of 256 byte values", len(byLA))}
-		}
-		// a look-ahead read when the consumed byte is the last byte of the input
-		for _, mr := range m.micro(st.root, modeLastByte, input, "i") {
-			if mr.kind == "crash" {
-				res.LastByteCrash = mr.detail
+	sv, ok := v.(*pe.StructV)
+	if !ok {
+		return "?"
+	}
+	st := sv.T.Underlying().(*types.Struct)
+	pos, has := "?", false
+	for i := 0; i < st.NumFields(); i++ {
+		switch st.Field(i).Name() {
+		case "index":
+			pos = m.pos(sv.F[i], lastConsumed)
+		case "hasIndex":
+			if b, ok := sv.F[i].(bool); ok {
+				has = b
 			}
 		}
-		if len(sig) == 1 && res.LastByteCrash == "" {
-			return byLA[0]
-		}
-		res.LA = byLA
-		return res
 	}
-	// end of input
+	if !has {
+		return "unset"
+	}
+	return pos
+}
+
+// Feed feeds one byte (0..255) or end of input (-2) to a state and drains the queued events. It is
+// for scanners/inputs without look-ahead: a transition that depends on following bytes is reported
+// as Kind "lookahead".
+func (m *scanModel) Feed(st *implState, input int) *stepResult {
+	if input < 0 {
+		mk := fmt.Sprintf("%s\x00eof", st.key)
+		if r, ok := m.memo[mk]; ok {
+			return r
+		}
+		r := m.feedEOF(st)
+		m.memo[mk] = r
+		return r
+	}
+	rs := m.FeedLA(st, []int{input})
+	if len(rs) == 1 && len(rs[0].LA) == 0 {
+		return rs[0]
+	}
+	return &stepResult{Kind: "lookahead", Detail: fmt.Sprintf("%d outcomes depending on the following bytes", len(rs))}
+}
+
+// FeedLA feeds the byte known[0]; known[1:] are following bytes already fixed (-1 = free). It returns
+// one result per distinct look-ahead valuation.
+func (m *scanModel) FeedLA(st *implState, known []int) []*stepResult {
+	mk := fmt.Sprintf("%s\x00%v", st.key, known)
+	if r, ok := m.memoLA[mk]; ok {
+		return r
+	}
+	var out []*stepResult
+	for _, mr := range m.micro(st.root, modeByte, known, laWindow+1, "i") {
+		out = append(out, m.finishByte(mr))
+	}
+	// collapse results that do not differ
+	if len(out) > 1 {
+		sig := map[string]bool{}
+		for _, r := range out {
+			sig[r.signature()] = true
+		}
+		if len(sig) == 1 {
+			r := *out[0]
+			r.LA = nil
+			out = []*stepResult{&r}
+		}
+	}
+	if m.memoLA == nil {
+		m.memoLA = map[string][]*stepResult{}
+	}
+	m.memoLA[mk] = out
+	return out
+}
+
+// FeedShort feeds the byte c when exactly `remaining` bytes of input are left (c included) and
+// reports only whether the scanner crashes (look-ahead beyond the end of the input).
+func (m *scanModel) FeedShort(st *implState, known []int, remaining int) (detail, where string) {
+	for _, mr := range m.micro(st.root, modeByte, known, remaining, "i") {
+		if mr.kind == "crash" {
+			return mr.detail, mr.where
+		}
+	}
+	return "", ""
+}
+
+func (m *scanModel) feedEOF(st *implState) *stepResult {
 	res := &stepResult{}
 	cur := st.root
 	for n := 0; ; n++ {
@@ -467,7 +552,7 @@ func (m *scanModel) feed(st *implState, input int) *stepResult {
 			res.Kind, res.Detail = "undecided", "more than 16 events at end of input"
 			return res
 		}
-		mrs := m.micro(cur, modeEOF, 0, "i-1")
+		mrs := m.mergeLookBehind(m.micro(cur, modeEOF, nil, 0, "i-1"))
 		if len(mrs) != 1 {
 			res.Kind, res.Detail = "undecided", "several outcomes at end of input"
 			return res
@@ -484,10 +569,44 @@ func (m *scanModel) feed(st *implState, input int) *stepResult {
 			res.Kind, res.Detail = "crash", "Next read past the end of input"
 			return res
 		default:
-			res.Kind, res.Detail, res.Code = mr.kind, mr.detail, mr.code
+			res.Kind, res.Detail, res.Code, res.ErrPos = mr.kind, mr.detail, mr.code, mr.errPos
 			return res
 		}
 	}
+}
+
+// mergeLookBehind merges outcomes that depend on already consumed bytes (look-behind reads, which
+// the state-merged model does not remember) when they differ only in the span of the delivered
+// event: the span alternatives are joined with "/".
+func (m *scanModel) mergeLookBehind(mrs []microResult) []microResult {
+	if len(mrs) <= 1 {
+		return mrs
+	}
+	first := mrs[0]
+	if first.kind != "event" {
+		return mrs
+	}
+	key := pe.Canon(m.resetIndex(pe.Clone(first.state)), nil)
+	begins, ends := map[string]bool{}, map[string]bool{}
+	for _, mr := range mrs {
+		if mr.kind != "event" || mr.ev.Type != first.ev.Type || mr.consumed != first.consumed {
+			return mrs
+		}
+		for off := range mr.la {
+			if off >= 0 {
+				return mrs
+			}
+		}
+		if pe.Canon(m.resetIndex(pe.Clone(mr.state)), nil) != key {
+			return mrs
+		}
+		begins[mr.ev.Begin] = true
+		ends[mr.ev.End] = true
+	}
+	first.ev.Begin = strings.Join(sortedKeys(begins), "/")
+	first.ev.End = strings.Join(sortedKeys(ends), "/")
+	first.la = nil
+	return []microResult{first}
 }
 
 func (r *stepResult) signature() string {
@@ -495,12 +614,12 @@ func (r *stepResult) signature() string {
 	if r.Next != nil {
 		k = r.Next.key
 	}
-	return r.Kind + "\x00" + evsString(r.Events) + "\x00" + k + "\x00" + r.Code
+	return fmt.Sprintf("%s\x00%s\x00%s\x00%s\x00%d\x00%s", r.Kind, evsString(r.Events), k, r.Code, r.Consumed, r.ErrPos)
 }
 
 // finishByte completes a byte transition whose first Next() call gave mr: drains queued events.
 func (m *scanModel) finishByte(mr microResult) *stepResult {
-	res := &stepResult{}
+	res := &stepResult{LA: mr.la, Consumed: mr.consumed}
 	var cur pe.Value
 	switch mr.kind {
 	case "cut":
@@ -514,7 +633,7 @@ func (m *scanModel) finishByte(mr microResult) *stepResult {
 		res.Kind, res.Detail = "crash", "Next reported end of input although a byte was available"
 		return res
 	default:
-		res.Kind, res.Detail, res.Code = mr.kind, mr.detail, mr.code
+		res.Kind, res.Detail, res.Code, res.ErrPos, res.Where = mr.kind, mr.detail, mr.code, mr.errPos, mr.where
 		return res
 	}
 	for n := 0; ; n++ {
@@ -522,7 +641,7 @@ func (m *scanModel) finishByte(mr microResult) *stepResult {
 			res.Kind, res.Detail = "undecided", "more than 16 events queued on one byte"
 			return res
 		}
-		mrs := m.micro(cur, modeDrain, 0, "i")
+		mrs := m.mergeLookBehind(m.micro(cur, modeDrain, nil, laWindow, "i"))
 		if len(mrs) != 1 {
 			res.Kind, res.Detail = "undecided", "several outcomes while delivering queued events"
 			return res
@@ -531,13 +650,15 @@ func (m *scanModel) finishByte(mr microResult) *stepResult {
 		switch mr.kind {
 		case "cut":
 			res.Kind = "ok"
+			res.Consumed += mr.consumed
 			res.Next = m.normalise(mr.state)
 			return res
 		case "event":
 			res.Events = append(res.Events, mr.ev)
+			res.Consumed += mr.consumed
 			cur = mr.state
 		default:
-			res.Kind, res.Detail, res.Code = mr.kind, mr.detail, mr.code
+			res.Kind, res.Detail, res.Code, res.ErrPos = mr.kind, mr.detail, mr.code, mr.errPos
 			if mr.kind == "end" {
 				res.Kind, res.Detail = "crash", "Next reported end of input although bytes remain"
 			}
